@@ -367,6 +367,9 @@ class IOWorld(Machine):
                 self.model[rel] = ("foreign",)
         for rel in [r for r in self.model if r not in after]:
             del self.model[rel]
+        # (file bytes are not logged: gzip headers carry the wall-clock mtime and pickled paths the
+        # sandbox name; neither enters any verdict)
+        ctx.out(op["op"], sorted(after), sorted((r, m[0], m[1] if m[0] == "clean" else "") for r, m in self.model.items()))
         ctx.state(sorted((r, m[0], m[1] if m[0] == "clean" else "") for r, m in self.model.items()))
 
     # ---- exports
